@@ -304,6 +304,14 @@ type cliPC struct {
 	port int
 }
 
+// WriteTo counts the back-channel RTP datagrams the client's writer goroutine really sent.
+func (c *cliPC) WriteTo(b []byte, addr net.Addr) (int, error) {
+	if c.port%2 == 0 && len(b) >= 12 && b[0]>>6 == 2 && b[1]&0x7f == backPT {
+		c.rd.backSent.Add(1)
+	}
+	return c.UDPConn.WriteTo(b, addr)
+}
+
 func (c *cliPC) ReadFrom(b []byte) (int, net.Addr, error) {
 	n, a, err := c.UDPConn.ReadFrom(b)
 	if err == nil && c.port%2 == 0 && n >= 12 {
